@@ -32,21 +32,44 @@ Section Struct.
     if rel then is_absolute n = false /\ Valid (n ++ zo)
     else is_absolute n = true /\ is_subdomain n zo = true.
 
-  Fixpoint rdatas_struct (ty : Z) (ks : list fkind) (rdone rds : list rdata) : Prop :=
+  (* one record of a modelled type: a field-list type, RRSIG (first field = covered type), or an
+     unknown type in the RFC 3597 form with non-empty data *)
+  Definition rd_struct (ty cov : Z) (rd : rdata) : Prop :=
+    (exists m ks, tbl_by_code type_table ty = Some (m, ks) /\ ty <> tRRSIG /\ cov = 0 /\ rdata_fits rel zo ks rd) \/
+    (ty = tRRSIG /\ 0 <= cov <= 65535 /\ exists rest, rd = VInt cov :: rest /\ rdata_fits rel zo rrsig_tail rest) \/
+    (tbl_by_code type_table ty = None /\ (ty =? 24) = false /\ cov = 0 /\
+     exists n h, rd = [VTok [92; 35]; VInt n; VRest [h]] /\ 0 < n /\ hex_lower h = true /\ zlen h = 2 * n).
+
+  Lemma rd_struct_ok ty cov rd : rd_struct ty cov rd ->
+    covers_of ty rd = cov /\ exists toks, rdata_ok c st zo ty rd toks.
+  Proof.
+    intros [(m & ks & Htbl & Hrr & Hc & Hf)|[(Ety & Hc & rest & Erd & Hf)|(Htbl & H24 & Hc & n & h & Erd & Hn & Hh & Hl)]].
+    - destruct (tbl_code_range _ _ _ Htbl) as [_ H24]. split.
+      + unfold covers_of. replace (ty =? tRRSIG) with false by (symmetry; apply Z.eqb_neq; exact Hrr).
+        rewrite H24. symmetry. exact Hc.
+      + exists (rd_toks rd). eapply rdata_ok_fits_proof; eauto.
+    - subst ty rd. split; [reflexivity|].
+      eexists. apply rdata_ok_rrsig_proof; eauto.
+    - subst rd cov. split.
+      + unfold covers_of. rewrite H24.
+        destruct (Z.eqb_spec ty tRRSIG) as [E|E]; [subst ty; discriminate Htbl|reflexivity].
+      + eexists. apply rdata_ok_generic_proof; eauto.
+  Qed.
+
+  Fixpoint rdatas_struct (ty cov : Z) (rdone rds : list rdata) : Prop :=
     match rds with
     | [] => True
     | rd :: r =>
-        rdata_fits rel zo ks rd /\
+        rd_struct ty cov rd /\
         existsb (rdata_eqb (canon_names ty) rd) rdone = false /\
-        rdatas_struct ty ks (rdone ++ [rd]) r
+        rdatas_struct ty cov (rdone ++ [rd]) r
     end.
 
   Definition rds_struct (n : name) (r : rdataset) : Prop :=
-    exists m ks,
-      tbl_by_code type_table (rtype r) = Some (m, ks) /\ rtype r <> tRRSIG /\ rcovers r = 0 /\
-      rdatas r <> [] /\ 0 <= rttl r <= MAX_TTL /\ soa_ok zo rel n (rtype r) /\
-      (is_singleton (rtype r) = true -> exists rd, rdatas r = [rd]) /\
-      rdatas_struct (rtype r) ks [] (rdatas r).
+    0 <= rtype r <= 65535 /\
+    rdatas r <> [] /\ 0 <= rttl r <= MAX_TTL /\ soa_ok zo rel n (rtype r) /\
+    (is_singleton (rtype r) = true -> exists rd, rdatas r = [rd]) /\
+    rdatas_struct (rtype r) (rcovers r) [] (rdatas r).
 
   Fixpoint rdss_struct (n : name) (ndone rest : node) : Prop :=
     match rest with
@@ -61,26 +84,22 @@ Section Struct.
 
   Definition zone_struct (z : zone) : Prop := keys_distinct z /\ Forall node_struct z.
 
-  Lemma rdatas_wf_struct ty m ks : tbl_by_code type_table ty = Some (m, ks) -> ty <> tRRSIG ->
-    forall rds rdone, rdatas_struct ty ks rdone rds -> rdatas_wf c st zo ty 0 rdone rds.
+  Lemma rdatas_wf_struct ty cov : forall rds rdone,
+    rdatas_struct ty cov rdone rds -> rdatas_wf c st zo ty cov rdone rds.
   Proof.
-    intros Htbl Hrr. destruct (tbl_code_range _ _ _ Htbl) as [_ H24].
     induction rds as [|rd rds IH]; intros rdone H; cbn [rdatas_wf]; [exact Logic.I|].
-    destruct H as (Hf & Hd & Hr).
-    split; [|split; [exact Hd|split; [|apply IH; exact Hr]]].
-    - unfold covers_of. replace (ty =? tRRSIG) with false by (symmetry; apply Z.eqb_neq; exact Hrr).
-      rewrite H24. reflexivity.
-    - exists (rd_toks rd). eapply rdata_ok_fits_proof; eauto.
+    destruct H as (Hf & Hd & Hr). destruct (rd_struct_ok _ _ _ Hf) as [Hcov Hok].
+    split; [exact Hcov|]. split; [exact Hd|]. split; [exact Hok|]. apply IH. exact Hr.
   Qed.
 
   Lemma rdss_wf_struct n : forall rest ndone, rdss_struct n ndone rest -> rdss_wf c st zo n ndone rest.
   Proof.
     induction rest as [|r rest IH]; intros ndone H; cbn [rdss_wf]; [exact Logic.I|].
-    destruct H as (Hf & Hc & (m & ks & Htbl & Hrr & Hcov & Hne & Httl & Hsoa & Hsing & Hrd) & Hrest).
+    destruct H as (Hf & Hc & (Hty & Hne & Httl & Hsoa & Hsing & Hrd) & Hrest).
     split; [exact Hf|]. split; [exact Hc|]. split; [|apply IH; exact Hrest].
     unfold rds_wf. split; [exact Hne|]. split; [exact Httl|].
-    split; [apply (tbl_code_range _ _ _ Htbl)|]. split; [exact Hsoa|]. split; [exact Hsing|].
-    rewrite Hcov. eapply rdatas_wf_struct; eauto.
+    split; [exact Hty|]. split; [exact Hsoa|]. split; [exact Hsing|].
+    apply rdatas_wf_struct. exact Hrd.
   Qed.
 
   Lemma node_wf_struct e : node_struct e -> node_wf c st zo e.
